@@ -250,6 +250,19 @@ func (y *c18YieldWriter) Write(p []byte) (int, error) {
 	return y.buf.Write(p)
 }
 
+// c18FailingWriter accepts Write calls until the failAt-th, which fails (as do all later ones).
+type c18FailingWriter struct {
+	calls, failAt int
+}
+
+func (f *c18FailingWriter) Write(p []byte) (int, error) {
+	f.calls++
+	if f.calls >= f.failAt {
+		return 0, errors.New("c18: injected write failure")
+	}
+	return len(p), nil
+}
+
 // c18Sched is the scheduler of the execution in progress (one per process: schedule
 // exploration runs in single-threaded worker subprocesses).
 var c18Sched *mc.Sched
@@ -397,18 +410,20 @@ func init() {
 		name string
 		ser  int               // index in c18Sers, or -1 for a mutation
 		mut  func(w *c18World) // applied to the shared world
+		// failAt > 0: the destination fails at this Write call (1-based)
+		failAt int
 	}
 	var menu []op
 	for i, s := range c18Sers {
 		menu = append(menu, op{name: s.name, ser: i})
 	}
 	muts := []op{
-		{"mutate: resp.Status=404, bundle exchange 0 status=404", -1, func(w *c18World) {
+		{name: "mutate: resp.Status=404, bundle exchange 0 status=404", ser: -1, mut: func(w *c18World) {
 			w.resp.Status = 404
 			w.bundleB1.Exchanges[0].Response.Status = 404
 			w.bundleB2.Exchanges[0].Response.Status = 404
 		}},
-		{"mutate: add header X-Added to resp / bundles / exchanges", -1, func(w *c18World) {
+		{name: "mutate: add header X-Added to resp / bundles / exchanges", ser: -1, mut: func(w *c18World) {
 			w.resp.Header.Set("X-Added", "1")
 			w.bundleB2.Exchanges[1].Response.Header.Set("X-Added", "1")
 			w.bundleB1.Exchanges[1].Response.Header.Set("X-Added", "1")
@@ -416,7 +431,7 @@ func init() {
 				w.ex[v].ResponseHeaders.Set("X-Added", "1")
 			}
 		}},
-		{"mutate: header VALUES changed (same names, same count)", -1, func(w *c18World) {
+		{name: "mutate: header VALUES changed (same names, same count)", ser: -1, mut: func(w *c18World) {
 			w.resp.Header.Set("Content-Type", "application/octet-stream")
 			w.bundleB1.Exchanges[0].Response.Header.Set("Content-Type", "image/png")
 			w.bundleB2.Exchanges[0].Response.Header.Set("Content-Type", "image/png")
@@ -424,7 +439,7 @@ func init() {
 				w.ex[v].ResponseHeaders.Set("Content-Type", "image/png")
 			}
 		}},
-		{"mutate: payload[0]^=1, subset date+1, attrs value changed, pl param changed", -1, func(w *c18World) {
+		{name: "mutate: payload[0]^=1, subset date+1, attrs value changed, pl param changed", ser: -1, mut: func(w *c18World) {
 			w.payload[0] ^= 1
 			w.subset.Date = w.subset.Date.Add(time.Second)
 			w.attrs[integrityblock.Ed25519publicKeyAttributeName] = []byte(fixtures.Ed3.Pub)
@@ -433,6 +448,18 @@ func init() {
 		}},
 	}
 	menu = append(menu, muts...)
+	// calls whose destination fails at the k-th Write (a client going away while an artifact is
+	// served): the failed call itself is C19's business; here it is a history step after which
+	// every other call must still produce its usual bytes
+	for _, name := range []string{"CertChain.Write", "DumpExchangeHeaders(1b2)", "Bundle.WriteTo(b2)", "Exchange.Write(1b3)", "DumpSignedMessage(1b3)"} {
+		for _, k := range []int{0, 2, 4, 6, 9} {
+			for i := range c18Sers {
+				if c18Sers[i].name == name {
+					menu = append(menu, op{name: fmt.Sprintf("%s failing at write #%d", name, k), ser: i, failAt: k + 1})
+				}
+			}
+		}
+	}
 	histH := &mc.Harness{
 		Name:      "C18/histories",
 		NoConfirm: true,
@@ -469,6 +496,11 @@ func init() {
 							applied = append(applied, mi)
 						}
 					}
+					continue
+				}
+				if o.failAt > 0 {
+					fw := &c18FailingWriter{failAt: o.failAt}
+					c18Sers[o.ser].run(shared, fw) // error expected; judged by C19
 					continue
 				}
 				before := c18Snapshot(shared)
@@ -712,7 +744,7 @@ func init() {
 	register(&mc.Property{
 		ID:    "C18",
 		Level: "model_checking",
-		Rule:  "four parts. permutations: 9 serializers x maps of 1..4 entries x every insertion permutation x 6 repeated calls, all bytes equal to the identity-order baseline. histories: every sequence of <=2 (quick) / <=3 (thorough) operations from 18 serializer calls + 3 input mutations on one shared world; each output = the same call on a freshly built world in the same logical state, input memory (incl. spare capacity) unchanged, earlier returned slices unchanged. schedules: every unordered pair of the 18 serializer calls as 2 logical threads (thorough: plus every ascending triple as 3 threads) on shared inputs, ALL interleavings at hooked operations (verifhook.Point sites, every Write of the harness-owned writer) with at most 2 preemptions; each thread's bytes = its solo bytes. races (auxiliary): every ordered pair as free-running goroutines in a -race build. Non-trivial = >=2 map entries / non-empty history / a complete schedule; distinct by (scenario, vector).",
+		Rule:  "four parts. permutations: 9 serializers x maps of 1..4 entries x every insertion permutation x 6 repeated calls, all bytes equal to the identity-order baseline. histories: every sequence of <=2 (quick) / <=3 (thorough) operations from 18 serializer calls + 4 input mutations + 25 calls whose destination fails at a chosen Write, on one shared world; each output = the same call on a freshly built world in the same logical state, input memory (incl. spare capacity) unchanged, earlier returned slices unchanged. schedules: every unordered pair of the 18 serializer calls as 2 logical threads (thorough: plus every ascending triple as 3 threads) on shared inputs, ALL interleavings at hooked operations (verifhook.Point sites, every Write of the harness-owned writer) with at most 2 preemptions; each thread's bytes = its solo bytes. races (auxiliary): every ordered pair as free-running goroutines in a -race build. Non-trivial = >=2 map entries / non-empty history / a complete schedule; distinct by (scenario, vector).",
 		Assumptions: []string{
 			"Go map iteration order is runtime-internal and not behind a seam: order-independence is decided by enumerating every insertion permutation (small maps iterate as rotations of insertion order) with repeated calls, not by controlling the iteration",
 			"the cooperative scheduler explores interleavings at hooked operations only; unsynchronised accesses between hooks are the race detector's job (separate free-running -race pass, auxiliary evidence, not model checking)",
